@@ -1,4 +1,92 @@
-"""C04 — not built yet."""
+"""C04 — invalid input is diagnosed: non-zero exit, message, no output, no crash (DESIGN.md §5.4, docs/C04.md)."""
+import json, os
+from vlib import core
+
+THEOREMS = ["Props.C04." + t for t in [
+    "pipeline_order", "check_order_complete", "type_categories",
+    "anywhere_in_graph", "anywhere_in_graph_resolve",
+    "dup_global_rejected", "dup_symbol_rejected", "dup_field_name_rejected", "dup_field_id_rejected",
+    "dup_function_rejected", "dup_enum_value_name_rejected", "dup_enum_number_rejected", "enum_out_of_int32_rejected",
+    "oneway_nonvoid_rejected", "oneway_throws_rejected",
+    "union_second_default_rejected_partial", "union_check_never_fires",
+    "undefined_type_rejected", "undefined_qualified_type_rejected", "nontype_symbol_as_type_rejected",
+    "unknown_base_service_rejected", "typedef_cycle_rejected",
+    "undefined_const_rejected", "undefined_or_ambiguous_const_rejected",
+    "include_cycle_rejected", "abstract_stage_rejected",
+    "reject_writes_nothing", "no_crash_partial", "no_exit0_without_output_partial",
+    "union_second_default_witness", "crash_witness", "dup_argument_witness"]]
+
+PARTIAL = [
+    "union_second_default_rejected_partial: holds only under the regenerated fact unionSetsHasDefault=true; on the current source "
+    "CheckUnions never assigns hasDefault (union_check_never_fires, union_second_default_witness)",
+    "no_crash_partial: excludes dotted constant identifiers that select through a typedef; with a typedef cycle getEnum "
+    "overflows the stack (crash_witness)",
+    "no_exit0_without_output_partial: panics of the parser and of the backend are predicates of Env, not modelled code; "
+    "main.handlePanic returns normally (handlePanicExits=false)",
+    "dup_field_name_rejected / dup_field_id_rejected: struct, union, exception only; argument and throws lists are not "
+    "checked by the code (dup_argument_witness)",
+    "resolver-stage theorems carry `outcome != crash` (same getEnum defect)",
+    "syntax errors, missing includes, command-line errors and backend constant typing are abstract predicates "
+    "(abstract_stage_rejected); they are tied by the oracle on the binary only",
+]
+
+
 def run(ctx):
-    print("C04: no check built yet")
-    return 2
+    exe = ctx.go_build("c04")
+    ctx.partial = PARTIAL
+    ctx.trusted += [
+        "translator harness/cmd/c04 extract (go/ast over semantic/checker.go, semantic/semantic.go, main.go, sdk/invoke.go)",
+        "harness/cmd/c04: encoding of parser.Thrift into the model's Program (encode.go), classification of process observations",
+        "OS process semantics (exit status, files under the working directory), 20 s (retried 120 s) as 'hang'",
+    ]
+    ctx.assumptions += [
+        "syntax (PEG + walker), include search, flag parsing, backend selection/options and backend constant typing are "
+        "predicates of Env: the model takes the implementation's word for them; only the oracle on the binary speaks about them",
+        "parseFileRecursively hands over one AST per path and parsed References (WF), re-checked on every generated case by the driver",
+        "no user definition is called like a base or container type (getEnum on a typedef of such a type ends the search)",
+        "filepath.Base / filepath.Ext on include paths as modelled by idlPrefix (no trailing slash, no empty path)",
+    ]
+    if exe:
+        if ctx.replay:
+            doc = json.load(open(ctx.replay))
+            if doc.get("kind") == "failing-input":
+                rc, out = core.sh([exe, "replay", "-repo", core.REPO, "-dir", ctx.work, "-file", ctx.replay], timeout=1200)
+                if rc != 0:
+                    raise core.MachineryError("c04 replay failed: " + out[-2000:])
+                for f in json.loads(out.strip().split("\n")[-1]):
+                    ctx.add_violation(f["key"], f["what"], f["input"], f["expected"], f["observed"])
+                ctx.cov["evaluations"] = 1
+                return ctx.finish(rule="replay of one program + command line on the thriftgo binary")
+        rc, gen = core.sh([exe, "extract", "-repo", core.REPO])
+        if rc != 0:
+            ctx.obligation("translator:c04-extract", False, gen[-2000:])
+        else:
+            ctx.obligation("translator:c04-extract", True)
+            ctx.write_generated("C04", gen)
+    built = ctx.lake_build(["ThriftVerif.Props.C04"], "lake-build:Props.C04")
+    drv = ctx.lake_build(["tv_c04"], "lake-build:tv_c04")
+    if built:
+        ctx.audit("C04", THEOREMS)
+        if ctx.tier == "thorough":
+            ctx.leanchecker(["ThriftVerif.Props.C04"])
+    if exe:
+        rc, out = core.sh([exe, "run", "-repo", core.REPO, "-dir", ctx.work, "-seed", str(ctx.seed), "-tier", ctx.tier], timeout=3000)
+        if rc != 0:
+            raise core.MachineryError("c04 run failed: " + out[-2000:])
+        st = json.load(open(os.path.join(ctx.work, "stats.json")))
+        dist = st["distribution"]
+        ctx.cov.update(evaluations=st["evaluations"], distinct_nontrivial=st["distinct_nontrivial"], samples=st["samples"],
+                       distribution=dist, programs=dist.get("base:minimal", 0) + dist.get("base:random", 0),
+                       process_runs=dist.get("binary_runs", 0))
+        for f in (st.get("oracle_failures") or []):
+            ctx.add_violation(f["key"], f["what"], f["input"], f["expected"], f["observed"])
+        if drv:
+            model = ctx.run_model("tv_c04", os.path.join(ctx.work, "ops.txt"))
+            ctx.diff_lines("c04", os.path.join(ctx.work, "ops.txt"), os.path.join(ctx.work, "impl.txt"), model)
+    return ctx.finish(rule="one per (rule, variant, position class): every catalogue edit at main / included / transitively "
+                           "included file of a fixed three-file program (exhaustive), a seeded sample on random valid programs "
+                           "(3..5 files, diamonds, sub-directory), invalid command lines; each case is (a) parsed by the real "
+                           "parser and run through CircleDetect / the five checks per file / ResolveSymbols in a child process "
+                           "(`S` lines: stage and failing file compared with the model), (b) run through the thriftgo binary "
+                           "built from the tree for go and fastgo (`R` lines: outcome class and 'anything written'); the "
+                           "oracle is the statement itself on the binary")
